@@ -28,39 +28,120 @@ SPEC_ACCEPT = {("LinkToCore", "LinkToChild"), ("LinkToChild", "LinkToCore"), ("L
                ("LinkToChild", "LinkToPeer"), ("LinkToPeer", "LinkToChild")}
 
 
-def eval_decision(b, start, tuple_local, values, result_local):
-    """follow the CFG from `start` for a concrete (v0, v1) assignment of the discriminants of tuple_local.0/.1
-    until result_local is assigned a constant; returns that constant or None"""
+def eval_decision(b, start, tuple_local, values, discr, elems, lt):
+    """abstract execution from `start` for a concrete (v0, v1) assignment of the two link types:
+    follows switches whose operand evaluates under the assignment (discriminants of the tuple fields,
+    constants, derived PartialEq::eq/ne between link types, bool locals assigned on the path) until the
+    return place receives Result::Ok / Result::Err.  Returns True (Ok), False (Err) or None (undecided)."""
+    env = {}
+
+    def resolve_tree(t):
+        t = _peel(t)
+        st = FX.strip_sites(t)
+        if st == elems[0] and elems[0] != elems[1]:
+            return values[0]
+        if st == elems[1] and elems[0] != elems[1]:
+            return values[1]
+        if t[0] == "agg" and t[1][0] == "adt" and t[1][1] == lt and not t[2]:
+            return discr.get(t[1][2])
+        if t[0] == "lit" and isinstance(t[1], int):
+            return t[1]
+        return None
+
+    def resolve_op(op):
+        k = FX.op_const(op)
+        if k is not None:
+            v = k.get("v")
+            return v if isinstance(v, int) else None
+        pl = FX.op_place(op)
+        if pl is None:
+            return None
+        if not pl[1] and pl[0] in env:
+            return env[pl[0]]
+        if pl[0] == tuple_local and len(pl[1]) == 1 and isinstance(pl[1][0], list) and pl[1][0][0] == "f":
+            return values[pl[1][0][1]]
+        return resolve_tree(b.origin(op))
+
     cur = start
     steps = 0
-    while steps < 200:
+    seen = set()
+    while steps < 400:
         steps += 1
+        if cur in seen:
+            return None
+        seen.add(cur)
         for s in b.stmts(cur):
-            if s[0] == "=" and s[1][0] == result_local and not s[1][1] and s[2][0] == "use":
-                v = const_int(s[2][1])
-                if v is not None:
-                    return v
+            if s[0] != "=":
+                continue
+            l, proj = s[1]
+            if proj:
+                continue
+            rv = s[2]
+            if l == 0 and rv[0] == "agg" and rv[1][0] == "adt" and rv[1][1] == "core::result::Result":
+                return rv[1][2] == "Ok"
+            v = None
+            if rv[0] == "use":
+                v = resolve_op(rv[1])
+            elif rv[0] == "disc":
+                pl = rv[1]
+                if pl[0] == tuple_local and len(pl[1]) == 1 and isinstance(pl[1][0], list) and pl[1][0][0] == "f":
+                    v = values[pl[1][0][1]]
+                else:
+                    v = resolve_op(["c", pl])
+            elif rv[0] == "bin" and rv[1] in ("Eq", "Ne"):
+                a, c = resolve_op(rv[2]), resolve_op(rv[3])
+                if a is not None and c is not None:
+                    v = int((a == c) == (rv[1] == "Eq"))
+            elif rv[0] == "un" and rv[1] == "Not":
+                a = resolve_op(rv[2])
+                if a is not None:
+                    v = int(not a)
+            if v is None:
+                env.pop(l, None)
+            else:
+                env[l] = v
         t = b.term(cur)
         if t[0] in ("goto", "falseedge", "falseunwind"):
             cur = t[1]
             continue
-        if t[0] == "switch":
-            pl = FX.op_place(t[1])
-            which = None
-            if pl is not None:
-                for d in b.defs.get(pl[0], ()):
-                    if d[0] == "assign" and d[4][0] == "disc":
-                        dp = d[4][1]
-                        if dp[0] == tuple_local and dp[1] and isinstance(dp[1][0], list) and dp[1][0][0] == "f":
-                            which = dp[1][0][1]
-            if which is None:
+        if t[0] == "drop":
+            cur = t[2]
+            continue
+        if t[0] == "call":
+            k = FX.op_const(t[1]) or {}
+            fn = k.get("fn") or ""
+            dest = t[3]
+            v = None
+            if fn in ("core::cmp::PartialEq::eq", "core::cmp::PartialEq::ne") and len(t[2]) == 2 and (k.get("self") or "").endswith("AsRoutingLinkType"):
+                a, c = resolve_op(t[2][0]), resolve_op(t[2][1])
+                if a is not None and c is not None:
+                    v = int((a == c) == fn.endswith("::eq"))
+            if not dest[1]:
+                if v is None:
+                    env.pop(dest[0], None)
+                else:
+                    env[dest[0]] = v
+            if t[4] is None:
                 return None
-            v = values[which]
+            cur = t[4]
+            continue
+        if t[0] == "switch":
+            v = resolve_op(t[1])
+            if v is None:
+                return None
             arms = {a: tg for a, tg in t[2]}
             cur = arms.get(v, t[3])
             continue
+        if t[0] == "ret":
+            return None
         return None
     return None
+
+
+def _peel(t):
+    while isinstance(t, tuple) and t and t[0] in ("ref", "deref", "promoted"):
+        t = t[2] if t[0] == "ref" else t[1]
+    return t
 
 
 def run(F, R, tier, cfg):
@@ -85,21 +166,11 @@ def run(F, R, tier, cfg):
                     ok2 = all("field:link_type" in tokens(b.origin(o)) for o in s[2][2])
                     if ok2:
                         tl = (s[1][0], bi)
-        # result local: discr of the switch controlling InvalidSegmentChange
-        rl = None
-        for (bb, idx, adtn, var) in T.result_variant_defs(b):
-            pass
-        for bi in sorted(b.live_blocks()):
-            t = b.term(bi)
-            if t[0] == "switch" and t[4] == "bool":
-                pl = FX.op_place(t[1])
-                if pl is not None and not pl[1]:
-                    ds = b.defs.get(pl[0], ())
-                    if len(ds) >= 2 and all(d[0] == "assign" and d[4][0] == "use" and const_int(d[4][1]) is not None for d in ds):
-                        rl = pl[0]
-        if tl is None or rl is None:
-            R.anchor_missing("link-type tuple / result local in validate_segment_change")
+        if tl is None:
+            R.anchor_missing("(in_link_type, out_link_type) tuple in validate_segment_change")
             continue
+        tstmt = [st for st in b.stmts(tl[1]) if st[0] == "=" and st[1][0] == tl[0] and st[2][0] == "agg"][0]
+        elems = tuple(FX.strip_sites(_peel(b.origin(o))) for o in tstmt[2][2])
         in_o = b.origin(b.stmts(tl[1])[[i for i, s in enumerate(b.stmts(tl[1])) if s[0] == "=" and s[1][0] == tl[0]][0]][2][2][0])
         # in = lookup(current hop ingress), out = lookup(next hop egress)
         okio = any(t.endswith("::ingress_interface") for t in tokens(in_o))
@@ -107,10 +178,10 @@ def run(F, R, tier, cfg):
         undecided = []
         for n0, d0 in discr.items():
             for n1, d1 in discr.items():
-                r = eval_decision(b, tl[1], tl[0], (d0, d1), rl)
+                r = eval_decision(b, tl[1], tl[0], (d0, d1), discr, elems, LT)
                 if r is None:
                     undecided.append((n0, n1))
-                elif r == 1:
+                elif r:
                     table.add((n0, n1))
         ok = not undecided and table == SPEC_ACCEPT and okio
         R.ob("TBL-segment-change", "accepted (in,out) link types over %dx%d product = %s" % (len(discr), len(discr), sorted(table)), ok, True,
